@@ -5,7 +5,7 @@ import math
 import numpy as np
 from hypothesis import strategies as st
 
-from vf import gen, quant
+from vf import gen, iodata_standin, quant
 from vf.core import Verdict, lib, mk_basis, mk_shell, nfunc, sh
 from vf.ref import r3, r4
 from vf.run import SubCheck
@@ -55,7 +55,8 @@ def env_st(draw, cents, nmax_pts=4):
             "origin": [draw(st.floats(-2, 2, allow_nan=False)) for _ in range(3)],
             "orders": [list(o) for o in orders],
             "deriv_order": list(draw(st.tuples(*[st.integers(0, 3)] * 3))),
-            "alpha": draw(st.sampled_from([0, 0.5, 1, 0.3])), "beta": draw(st.sampled_from([0, 1, -0.7]))}
+            "alpha": draw(st.sampled_from([0, 0.5, 1, 0.3])), "beta": draw(st.sampled_from([0, 1, -0.7])),
+            "tol_screen": draw(gen.log_uniform(1e-12, 1e-2))}
 
 
 @st.composite
@@ -266,21 +267,6 @@ def judge_conv(case):
 
 
 # ---- conventions through the IOData import path (gbasis.wrappers.from_iodata with a stand-in for the iodata package) ----------
-def _fake_iodata():
-    """from_iodata only needs iodata.convert.convert_to_segmented; the stand-in returns a segmented basis unchanged."""
-    import sys
-    import types
-
-    if "iodata.convert" not in sys.modules or not getattr(sys.modules["iodata.convert"], "_vf_fake", False):
-        pkg = types.ModuleType("iodata")
-        conv = types.ModuleType("iodata.convert")
-        conv.convert_to_segmented = lambda obasis: obasis
-        conv._vf_fake = True
-        pkg.convert = conv
-        sys.modules["iodata"] = pkg
-        sys.modules["iodata.convert"] = conv
-
-
 @st.composite
 def iodata_case(draw, eri):
     case = draw(types_case(eri))
@@ -303,38 +289,13 @@ def iodata_case(draw, eri):
 def judge_iodata(case):
     from gbasis.wrappers import from_iodata
 
-    _fake_iodata()
     shells = case["shells"]
     env = dict(case["env"])
     conv = case["iodata_conv"]
     v = Verdict(nontrivial=any(s["l"] >= 1 for s in shells))
     quants = quant.ERI if case["eri"] else quant.INDEXED + quant.DENSITY
 
-    class Shell:  # iodata.basis.Shell stand-in
-        def __init__(self, icenter, d):
-            self.icenter = icenter
-            self.angmoms = [d["l"]]
-            self.kinds = ["c" if d["type"] == "cartesian" else "p"]
-            self.exponents = np.array(d["exps"], dtype=float)
-            self.coeffs = np.array(d["coeffs"], dtype=float)
-            self.ncon = 1
-
-    class MolecularBasis:
-        pass
-
-    class IOData:
-        pass
-
-    ob = MolecularBasis()
-    ob.shells = [Shell(i, d) for i, d in enumerate(shells)]
-    ob.conventions = {}
-    for l, c in conv.items():
-        ob.conventions[(int(l), "c")] = ["x" * a + "y" * b + "z" * cc for a, b, cc in c["c"]]
-        ob.conventions[(int(l), "p")] = list(c["p"])
-    ob.primitive_normalization = "L2"
-    mol = IOData()
-    mol.obasis = ob
-    mol.atcoords = np.array([d["coord"] for d in shells], dtype=float)
+    mol = iodata_standin.molecule(shells, conv)
     bio = lib(from_iodata, mol)
     if len(bio) != len(shells):
         return v.fail(f"from_iodata returned {len(bio)} shells for {len(shells)}")
